@@ -12,6 +12,8 @@ SPECIALS = {
     'bos_eos': (['<unk>', '<bos>', '<eos>', '<pad>'], '<pad>', ['<bos>'], ['<eos>']),
     'dup_extra': (['<pad>', '<bos>', '<pad>', '<x>', '<bos>'], '<pad>', ['<bos>', '<bos>'], ['<x>']),
     'minimal': (['<pad>'], '<pad>', [], []),
+    # several distinct prefix and suffix tokens (their order matters)
+    'two_prefix': (['<unk>', '<bos>', '<eos>', '<pad>'], '<pad>', ['<bos>', '<pad>'], ['<eos>', '<unk>']),
 }
 
 
